@@ -146,6 +146,18 @@ static void crash_handler(int sig) {
   _exit(70);
 }
 
+// sanitizer runtime hook (weak: absent in plain builds) so that an ASan/UBSan abort still leaves a replayable journal
+extern "C" void __sanitizer_set_death_callback(void (*)(void)) __attribute__((weak));
+static void sanitizer_death() {
+  static char buf[1 << 16];
+  if (!g_cur_draw) return;
+  int n = snprintf(buf, sizeof buf, "{\"case\":\"%s\",\"status\":\"crash\",\"msg\":\"sanitizer abort (see stderr summary)\",\"log\":[", g_cur_case);
+  const std::vector<int64_t> &l = g_cur_draw->log;
+  for (size_t i = 0; i < l.size() && n < (int)sizeof buf - 64; ++i) n += snprintf(buf + n, sizeof buf - n, "%s%lld", i ? "," : "", (long long)l[i]);
+  n += snprintf(buf + n, sizeof buf - n, "]}\n");
+  ssize_t w = write(g_out_fd, buf, n); (void)w;
+}
+
 static __attribute__((noinline)) void poison_stack(size_t n) {
   volatile unsigned char *p = (volatile unsigned char *)alloca(n);
   memset((void *)p, 0xA5, n);
@@ -218,6 +230,7 @@ static int real_main(Args &a) {
   stack_t ss; ss.ss_sp = malloc(1 << 16); ss.ss_size = 1 << 16; ss.ss_flags = 0; sigaltstack(&ss, nullptr);
   struct sigaction sa; memset(&sa, 0, sizeof sa); sa.sa_handler = crash_handler; sa.sa_flags = SA_ONSTACK;
   for (int s : {SIGSEGV, SIGBUS, SIGILL, SIGFPE, SIGABRT}) sigaction(s, &sa, nullptr);
+  if (__sanitizer_set_death_callback) __sanitizer_set_death_callback(sanitizer_death);
 
   bool started = a.start_after.empty();
   int nfail = 0;
